@@ -7,7 +7,7 @@
 From Coq Require Import String.
 From Coq Require Import List Arith ZArith.
 Import ListNotations.
-From YP Require Import Base.Str Term.Term Term.Show Engine.Db Engine.DbCursor Engine.DbCursorThms Engine.DbFacts Engine.DbProg Engine.DbProgThms Engine.RunDbProg.
+From YP Require Import Base.Str Term.Term Term.Show Engine.Db Engine.DbCursor Engine.DbCursorThms Engine.DbRetractOrder Engine.DbFacts Engine.DbProg Engine.DbProgThms Engine.RunDbProg.
 
 (* "A goal that enumerates the dynamic facts of a predicate works on the facts as they were when the
    goal started: additions and removals made while the enumeration is suspended do not change which
@@ -39,6 +39,16 @@ Theorem C14_retract_at_most_once_from_init : forall mt evs s' outs,
   run mt init evs = Some (s', outs) -> NoDup (removed outs).
 Proof. intros mt evs s' outs. apply retract_at_most_once. apply ids_ok_empty. Qed.
 Print Assumptions C14_retract_at_most_once_from_init.
+
+(* "a suspended retract skips facts that have meanwhile been removed": whatever happens between its next()
+   calls, the Answers that a retract cursor removes and returns form a subsequence of the matching facts of
+   ITS SNAPSHOT, in snapshot order - it never goes back, never visits a fact added meanwhile, and
+   (C14_retract_at_most_once) never returns a fact that some other cursor has removed *)
+Theorem C14_retract_cursor_in_snapshot_order : forall mt evs s s' outs c L,
+  rcur_ids mt (scur s c) = Some L -> no_ctl c evs -> run mt s evs = Some (s', outs) ->
+  subseq (ret_ids (outs_of c evs outs)) L.
+Proof. exact retract_cursor_in_snapshot_order. Qed.
+Print Assumptions C14_retract_cursor_in_snapshot_order.
 
 (* "No modification made meanwhile is lost": the database after the history is the fold of the atomic
    updates (insert fact / delete fact id / delete ids / clear) of its events in the order in which
